@@ -22,6 +22,13 @@ def demo(meta, sd, wt):
             ok = ok and good; log += "[%s rc=%d good=%s]\n%s\n" % (prog, rc, good, out[-600:])
             os.remove(os.path.join(wt, "_seed_" + os.path.basename(prog)))
         os.remove(os.path.join(wt, "gp_seed"))
+    elif d["kind"] == "pydir":
+        rc, out = sh("go build -o %s/gp_seed ." % wt, wt); log += out
+        dd = os.path.join(wt, "_seed_dir"); shutil.copytree(os.path.join(sd, d["dir"]), dd)
+        rc, out = sh("timeout 60 ../gp_seed %s" % d["prog"], dd)
+        want = open(os.path.join(sd, d["dir"], d["expected"])).read()
+        ok = rc == 0 and out.strip() == want.strip(); log += "[rc=%d]\n%s\n" % (rc, out[-600:])
+        shutil.rmtree(dd); os.remove(os.path.join(wt, "gp_seed"))
     else:
         dst = os.path.join(wt, d["pkg"], os.path.basename(d["file"]))
         shutil.copy(os.path.join(sd, d["file"]), dst)
